@@ -611,6 +611,56 @@ def numeric_charges(run: Run, pt, base, tables):
                                                    key=repr(key), got=describe(got)), z=z, charge=c)
 
 
+def outside_model_keys(run: Run, pt, base, tables):
+    """keys the model's natural-number keys cannot express (real code + oracle only): negative atomic and
+    mass numbers are unknown keys and raise; atoms whose table the caller no longer references still
+    pickle back to themselves"""
+    import gc
+    import pickle
+    from periodictable import core, mass
+
+    def outcome(fn):
+        try:
+            x = fn()
+        except Exception as e:  # noqa: the property only says "raises"
+            return "raised " + type(e).__name__
+        return "returned %r (Z=%s)" % (x, getattr(x, "number", None))
+
+    for label, tbl in tables:
+        for z in (-1, -2, -5, -118, -119, -120, -1000):
+            got = outcome(lambda: tbl[z])
+            run.count(key=("negz", label, z), nontrivial=True, tag="negative-keys")
+            if not got.startswith("raised"):
+                run.violation("table[%d] did not raise" % z, dict(kind="outside-model", table=label, key=z, got=got), z=z)
+        for z in sorted(base):
+            el = tbl[z]
+            for a in list(el.isotopes[:1]) + list(el.isotopes[-1:]):
+                got = outcome(lambda: el[-a])
+                run.count(key=("nega", label, z, a), nontrivial=True, tag="negative-keys")
+                if not got.startswith("raised"):
+                    run.violation("%s[%d] did not raise" % (el, -a), dict(kind="outside-model", table=label, z=z, key=-a, got=got), z=z)
+
+    def dropped():
+        t = core.PeriodicTable("c08-dropped")
+        mass.init(t)
+        return [t.Fe, t.Fe[56], t.Fe.ion[2], t.Fe[56].ion[3], t.D, t[0], t.U[235]]
+    held = dropped()
+    gc.collect()
+    for a in held:
+        run.count(key=("dropped", repr(a)), nontrivial=True, tag="dropped-table")
+        for how, fn in (("pickle", lambda: pickle.loads(pickle.dumps(a))), ("deepcopy", lambda: __import__("copy").deepcopy(a))):
+            try:
+                b = fn()
+            except Exception as e:  # noqa
+                run.violation("%s of %r raised %s once the caller no longer references its table" % (how, a, type(e).__name__),
+                              dict(kind="outside-model", what="dropped-table", atom=repr(a), how=how))
+                continue
+            if b is not a:
+                run.violation("%s of %r gives another object once the caller no longer references its table" % (how, a),
+                              dict(kind="outside-model", what="dropped-table", atom=repr(a), how=how))
+    core.PRIVATE_TABLES.pop("c08-dropped", None)
+
+
 def run(run: Run) -> int:
     pt = import_repo()
     base = read_base()
@@ -628,6 +678,7 @@ def run(run: Run) -> int:
         priv = _core.PeriodicTable("c08numq")
         _mass.init(priv)
         numeric_charges(run, pt, base, [("public", pt.elements), ("private", priv)])
+        outside_model_keys(run, pt, base, [("public", pt.elements), ("private", priv)])
         n = 600 if run.tier == "quick" else 15000
         for lo in range(0, n, 500):
             batch = []
@@ -652,6 +703,13 @@ def replay(data) -> int:
     base = read_base()
     rc = 0
     for v in data.get("violations", []) + data.get("disagreements", []):
+        if v["input"].get("kind") == "outside-model":
+            r = Run("C08", "quick", 0)
+            outside_model_keys(r, pt, base, [("public", pt.elements)])
+            for x in r.violations[:5]:
+                print("ORACLE  :", x["what"], x["input"].get("got", ""))
+                rc = 1
+            continue
         if v["input"].get("kind") == "numeric-charge":
             r = Run("C08", "quick", 0)
             numeric_charges(r, pt, {v["input"]["z"]: base[v["input"]["z"]]}, [("public", pt.elements)])
